@@ -8,6 +8,7 @@ from .. import cfg as cfgmod
 from .. import lin
 from ..anchors import SIM, TASKS, Sim, event_constructions
 from ..core import (
+    reaching_calls,
     AnalysisError,
     call_name,
     calls_in,
@@ -123,7 +124,7 @@ def r1_admission(ctx: Context) -> None:
             while p is not None and not isinstance(p, ast.If):
                 p = parent(p)
             okc = p is not None and any(isinstance(x, ast.Continue) for x in p.body)
-            places = [c for c in calls_in(fn, "place_task")]
+            places = reaching_calls(fn, "place_task")
             okc = okc and bool(places) and not g.reachable(cn, g.node_of(places[0]), avoid={g.node_of(_loop_of(cancels[0])).id})
             ctx.check(okc, "C12.R1", key + "|cancelled task is not tried for placement", loc(cancels[0]), "continue", "a cancelled task can still be placed in the same iteration")
         # the decision is returned
